@@ -377,7 +377,8 @@ class MultiplyOperator(Operator):
             if isinstance(self.domain, RealNumbers):
                 return InnerProductOperator(self.multiplicand)
             elif isinstance(self.domain, ComplexNumbers):
-                return InnerProductOperator(self.multiplicand.conjugate())
+                # <s * v, y> = s * conj(<y, v>), hence no conjugation
+                return InnerProductOperator(self.multiplicand)
             else:
                 raise NotImplementedError(
                     'adjoint not implemented for domain{!r}'
